@@ -148,6 +148,7 @@ let run_case line =
   let b = Buffer.create 4096 in
   let t0 = text ms in
   Buffer.add_string b ("T0=" ^ hex_of_bytes t0);
+  Buffer.add_string b (if M.wf_ctx_b ms then "|WF=1" else "|WF=0");
   if not (M.writable_ctx ms) then Buffer.add_string b "|W1=ERR"
   else begin
     let w = M.write_ctx ms in
